@@ -4,3 +4,5 @@ import Gamba.Model.NFA
 import Gamba.Model.Regexp
 import Gamba.Model.TM
 import Gamba.Model.Lang
+import Gamba.Model.CFG
+import Gamba.Model.PDA
